@@ -214,6 +214,9 @@ func runC20(c *core.Case) *core.Result {
 								}
 							}
 							if abort {
+								if rr.Intn(2) == 0 {
+									time.Sleep(time.Duration(300+rr.Intn(500)) * time.Microsecond) // long enough for a sync answer to arrive while the body is open
+								}
 								return errAbort // nothing of this body may remain: not in the value, not in the pending list
 							}
 							return nil
@@ -256,6 +259,9 @@ func runC20(c *core.Case) *core.Result {
 								return e
 							}
 							if abort {
+								if rr.Intn(2) == 0 {
+									time.Sleep(time.Duration(300+rr.Intn(500)) * time.Microsecond) // long enough for a sync answer to arrive while the body is open
+								}
 								return errAbort
 							}
 							return nil
@@ -298,6 +304,9 @@ func runC20(c *core.Case) *core.Result {
 								fail("tx-interleaved:list", "inside a transaction body of goroutine %d: InsertMany(0,a,b) then GetMany(0,2) = %v (%v)", gi, vs, e)
 							}
 							if abort {
+								if rr.Intn(2) == 0 {
+									time.Sleep(time.Duration(300+rr.Intn(500)) * time.Microsecond) // long enough for a sync answer to arrive while the body is open
+								}
 								return errAbort
 							}
 							return nil
@@ -352,6 +361,9 @@ func runC20(c *core.Case) *core.Result {
 								kept = h
 							}
 							if abort {
+								if rr.Intn(2) == 0 {
+									time.Sleep(time.Duration(300+rr.Intn(500)) * time.Microsecond) // long enough for a sync answer to arrive while the body is open
+								}
 								return errAbort
 							}
 							return nil
